@@ -43,6 +43,9 @@ Inductive xref :=
 
 Definition qn := (option N * N)%type.     (* (target namespace, name with its kind) *)
 
+(* A declaration is named by its symbol space and local name together (the
+   harness interns the pair ("e" | "t", name)): an element and a type of the
+   same name are two different keys, as in Schema.elements / Schema.types. *)
 Record xschema := mkX { x_tns : option N; x_refs : list xref;
                         x_decls : list N }.   (* top-level element / type declarations *)
 
@@ -467,7 +470,10 @@ Inductive event := EStore (d : dom) (u : str) | ENet (d : dom) (u : str).
 Inductive fkind := FRaise | FGarbage.
 
 Record world := mkWorld {
-  w_docs : list (str * (bool * doc));     (* url -> (held by the document store?, content) *)
+  w_docs : list (str * (bool * doc));     (* url -> (held by the document store?, content);
+                                             the key is the whole URL, query string and
+                                             fragment included, as DocumentStore keys on the
+                                             whole location after "://" *)
   w_policy : N;                           (* options.cachingpolicy *)
   w_fault : option (nat * fkind) }.       (* the k-th fetch (0-based) fails *)
 
